@@ -872,3 +872,38 @@ entry("C13", modules=["contracts.c09_labels"],
                   "order of where, rows = ket labels, normalised exactly once iff normalized is True, 'return' gives the "
                   "unnormalised rho and its trace; local_expectation_exact: the tensordot pairing is sum rho[k,b] G[b,k] "
                   "for every ng; partial_trace_to_mpo: the declared upper id labels the unconjugated layer (finding 15).")
+
+entry("C06", modules=["contracts.c09_labels"],
+      E1=["quimb/tensor/gating.py::_tensor_network_gate_inds_basic", "quimb/tensor/gating.py::tensor_network_gate_inds"],
+      TRUSTED=[
+          "CONVENTION: a gate array in tensor form has the ROW (output) index of target j on axis j and the COLUMN (input) "
+          "index on axis ng+j; 'applying G' (G @ x) sums the column axes with the network's labels and leaves the row "
+          "axes outside under the ORIGINAL labels; transposed, the two halves exchange roles (checked at run time: "
+          "dense(after) == embedded operator @ dense(before))",
+          "FRESHNESS axiom: every rand_uuid() label differs from every target label and from every other new label "
+          "(instantiated at two arbitrary positions of the target sequence)",
+          "leaf: tn.reindex_(map) moves the target legs from the key labels to the value labels (keys pairwise distinct); "
+          "tn |= T attaches a tensor; tensor_contract(*site tensors, TG) keeps the outer labels; Tensor.gate_(G, ix, "
+          "transpose) applies G (G^T) on one label and keeps the labels [run-time contract 'Tensor.gate']; the eager-split "
+          "and lazy-split implementations and maybe_factor_gate (a reshape) are leaves; utils.check_opt raises ValueError "
+          "unless value in valid; the module constants _BASIC/_SPLIT/_VALID_GATE_CONTRACT are re-read from the source"],
+      ASSUMPTIONS=[
+          "_tensor_network_gate_inds_basic: ng symbolic (>= 1), one arbitrary target position (skolem); contract in the four "
+          "basic modes x isparam x transpose; requires ng == len(inds), the targets are legs of the network, each target "
+          "label on exactly one tensor (single-target route)",
+          "tensor_network_gate_inds: contract over the 7 valid modes + an invalid one x ng in {1, 2, 3+ (symbolic >= 3)} x "
+          "isparam x (dagger, transpose) in {(F,F),(T,F),(F,T)} x inplace; the expected behaviour is the declarative table "
+          "gate_mode_table of the contract module (per class of ng)",
+          "NOT covered here (design P list of C06): _tensor_network_gate_inds_lazy_split, maybe_factor_gate, gate_TN_1D "
+          "dispatch, the tnag gate site->label mapping"],
+      BOUNDED_FOR={
+          "_tensor_network_gate_inds_basic": ["TensorNetwork.gate_inds: dense(after)", "gate / gate_inds on a state-like",
+                                              "Tensor.gate: x <- G x"],
+          "tensor_network_gate_inds": ["TensorNetwork.gate_inds: dense(after)", "gate / gate_inds on a state-like"]},
+      EXPLANATION="E1 (label calculus, arbitrary target position, every ng): _tensor_network_gate_inds_basic attaches the "
+                  "gate through fresh labels so that the network's old labels join the gate's COLUMN axes (ROW axes when "
+                  "transposed) and the other half carries the ORIGINAL labels (outer labels unchanged), on the lazy, "
+                  "contract=True / single tensor, single-target and eager-split routes; tensor_network_gate_inds: every "
+                  "(mode, ng, parametrised) request raises ValueError or reaches exactly one implementation with the "
+                  "effective contract value of the mode table, G conjugated iff dagger, transpose = transpose or dagger, "
+                  "receiver untouched unless inplace.")
